@@ -197,7 +197,7 @@ def run(ctx):
 
   import ttconv  # noqa: F401  (sources selected by core.use_repo_sources)
   ncat = len(M.style_catalogue())
-  reps = 6 if thorough else 1
+  reps = 10 if thorough else 1
   items = []
   serial = 0
   tokpos = 0
@@ -209,7 +209,7 @@ def run(ctx):
       tokens = [(tokpos + k) % ncat for k in range(4)]
       tokpos += 4
       items.append((serial, sk, {"fmt": fmt, "fn": fn, "fd": fd}, tp, ctx.seed * 7919 + serial, tokens))
-  nrandom = 12000 if thorough else 300
+  nrandom = 30000 if thorough else 300
   cfgs = configs()
   for _ in range(nrandom):
     serial += 1
